@@ -12,12 +12,22 @@ import zodbpickle.pickle as zp
 from ZODB.POSException import ConflictError
 
 
+class SerializeFailure(Exception):
+    pass
+
+
 class Cell(persistent.Persistent):
     """generic node: payload + named references"""
+    FAIL_IDS = set()         # id()s of instances whose serialization is made to fail (shadow op 'serialize-failure')
 
     def __init__(self, payload=None):
         self.payload = payload
         self.refs = {}
+
+    def __getstate__(self):
+        if Cell.FAIL_IDS and id(self) in Cell.FAIL_IDS:
+            raise SerializeFailure()
+        return persistent.Persistent.__getstate__(self)
 
 
 class Plain(persistent.Persistent):
